@@ -432,6 +432,9 @@ func (c *Core) SubmitTxWithProof(ctx context.Context, tx *transaction.SignedTran
 	if err != nil {
 		return nil, err
 	}
+	if proof.Height != lb.Height {
+		return nil, fmt.Errorf("mismatched proof height")
+	}
 	if err = verifyTransactionProof(proof, tx, lb); err != nil {
 		return nil, err
 	}
